@@ -94,6 +94,17 @@ pub fn new_names(rows: &[&Row]) -> BTreeMap<String, String> {
     rows.iter().map(|r| (r.class.clone(), name_of(&r.class, &by_class, 0))).collect()
 }
 
+/// `true` when following `class -> enclosing class` through the pairs never comes back (the real code recurses along
+/// these links without a guard: a cyclic table is outside the domain and must never reach it)
+pub fn acyclic(links: &[(String, String)]) -> bool {
+    let by: BTreeMap<&str, &str> = links.iter().map(|(c, e)| (c.as_str(), e.as_str())).collect();
+    for (c, _) in links {
+        let mut cur = c.as_str(); let mut steps = 0;
+        while let Some(e) = by.get(cur) { cur = e; steps += 1; if steps > links.len() { return false; } }
+    }
+    true
+}
+
 /// number of rows on the enclosing path of `r` that take part (1 = its enclosing class is not itself nested)
 pub fn chain_depth(r: &Row, rows: &[&Row]) -> usize {
     let by_class: BTreeMap<&str, &Row> = rows.iter().map(|r| (r.class.as_str(), *r)).collect();
@@ -169,6 +180,8 @@ pub fn self_check() -> Result<(), String> {
     if chain_depth(&rows[1], &all) != 2 || chain_depth(&rows[0], &all) != 1 { return Err("chain_depth".into()); }
     let txt = table_text(&rows[..2], true);
     if txt != "p/B\tp/A\t\t\tB\t0\np/C\tp/B\tx\t()V\t1\t0\n" { return Err(format!("table_text {txt:?}")); }
+    let l = |v: &[(&str, &str)]| v.iter().map(|(a, b)| (a.to_string(), b.to_string())).collect::<Vec<_>>();
+    if !acyclic(&l(&[("a", "b"), ("b", "c")])) || acyclic(&l(&[("a", "b"), ("b", "a")])) || acyclic(&l(&[("a", "a")])) || acyclic(&l(&[("x", "a"), ("a", "b"), ("b", "c"), ("c", "a")])) { return Err("acyclic".into()); }
     let uni: BTreeSet<String> = jar.keys().cloned().collect();
     if !injective(&e.names, &uni) { return Err("injective".into()); }
     let mut clash = e.names.clone(); clash.insert("p/F".into(), "p/A$B".into());
